@@ -906,3 +906,78 @@ def field_types_of(prog, body):
         for f in v.get("fields", []):
             out[f["name"]] = f["ty"]
     return out
+
+
+NONFINITE_SPELLINGS = {"NaN", "INF", "-INF"}
+
+
+def check_nonfinite_spellings(ctx, rep):
+    """the text written for a non-finite number is one of the three spellings the Hayson encoding has ("NaN", "INF", "-INF"), each a
+    constant of the writer - not a string assembled at run time (sign + name gives "-NaN" for a NaN with its sign bit set) - and
+    they are exactly the spellings the reader recognises"""
+    prog = ctx.prog
+    b = next((x for x in prog.bodies.values() if x.file.endswith("encoding/json/encode.rs") and x.rec.get("name") == "serialize" and "number::Number" in x.id and x.rec["kind"] != "Closure"), None)
+    if b is None:
+        rep.gap("Serialize for Number", "-", "not found")
+        return 0
+    n = 0
+    written = set()
+    dynamic = []
+    for bi, t in b.calls():
+        nm = strip_generics(mir.callee_name(t) or "")
+        if not nm.endswith("serialize_entry") or len(t["args"]) < 3:
+            continue
+        k = G.describe(b, t["args"][1])
+        if k.kind != "conststr" or k.v != "val":
+            continue
+        if not any(g.op == "False" and g.a is not None and "is_finite" in repr(g.a) for g in G.guards_at(b, bi)):
+            continue  # the finite spelling
+        # every definition that can reach the value operand
+        pl = op_place(t["args"][2])
+        todo, seen = [pl["l"]] if pl is not None else [], set()
+        while todo:
+            l = todo.pop()
+            if l in seen:
+                continue
+            seen.add(l)
+            for _bi2, si, rv in b.defs().get(l, []):
+                if si == "term":
+                    dynamic.append(strip_generics(mir.callee_name(b.term(_bi2)) or "?").split("::")[-1])
+                elif rv["k"] in ("use", "cast"):
+                    c = mir.op_const(rv["op"])
+                    if c is not None and "str" in c:
+                        written.add(c["str"])
+                    elif c is None and op_place(rv["op"]) is not None:
+                        todo.append(op_place(rv["op"])["l"])
+                elif rv["k"] in ("ref", "rawptr"):
+                    todo.append(rv["place"]["l"])
+                else:
+                    dynamic.append(rv["k"])
+    n += 1
+    key = "nonfinite-spellings:writer"
+    if dynamic or written != NONFINITE_SPELLINGS:
+        rep.bad("T-HAYSON", "T-HAYSON:" + key, b.where(), "the non-finite `val` is %s: the writer can emit a text that is not one of \"NaN\", \"INF\", \"-INF\"" % ("assembled at run time (%s)" % sorted(set(dynamic)) if dynamic else "one of %s" % sorted(written)))
+    else:
+        rep.ok("T-HAYSON", key, b.where(), "the three constants NaN / INF / -INF, nothing assembled")
+    # reader: the string spellings it tests for
+    pn = prog.get("haystack::encoding::json::decode::parse_number")
+    if pn is not None:
+        n += 1
+        read = set()
+        for x in [pn] + [prog.bodies[c] for c in prog.closures_of.get(pn.id, [])]:
+            for blk in x.blocks:
+                for st in blk["stmts"]:
+                    if st["k"] == "assign" and st["rv"]["k"] == "use":
+                        c = mir.op_const(st["rv"]["op"])
+                        if c is not None and c.get("str") in ("NaN", "INF", "-INF", "-NaN", "+INF", "Infinity", "-Infinity", "nan", "inf", "-inf"):
+                            read.add(c["str"])
+            for _bi, t in x.calls():
+                for a in t.get("args", []):
+                    c = mir.op_const(a)
+                    if c is not None and c.get("str") in ("NaN", "INF", "-INF", "-NaN", "+INF", "Infinity", "-Infinity", "nan", "inf", "-inf"):
+                        read.add(c["str"])
+        if read == NONFINITE_SPELLINGS:
+            rep.ok("T-HAYSON", "nonfinite-spellings:reader", pn.where(), "the reader recognises exactly NaN / INF / -INF")
+        else:
+            rep.bad("T-HAYSON", "T-HAYSON:nonfinite-spellings:reader", pn.where(), "the reader recognises %s as spellings of non-finite numbers, the encoding has NaN / INF / -INF" % sorted(read))
+    return n
